@@ -182,6 +182,11 @@ func (fr *Frame) step(in ssa.Instruction, cond T, st *State) T {
 		x := fr.val(i.X)
 		if t, ok := x.(T); ok && t.Sort == SInt && isRefLike(i.X.Type()) {
 			fr.env[i] = t
+			if _, isPtr := types.Unalias(i.X.Type()).Underlying().(*types.Pointer); isPtr {
+				// a non-nil pointer boxed in an interface carries its static type as dynamic type
+				vc.declareFun("dyntype", []Sort{SInt}, SInt)
+				vc.assert(Imp(Not(Eq(t, I(0))), Eq(app(SInt, "dyntype", t), I(int64(vc.eng.typeID(i.X.Type()))))))
+			}
 		} else if t, ok := x.(T); ok && t.Sort == SInt {
 			// box a scalar: injective per type
 			fn := "box_" + typeKey(i.X.Type())
@@ -639,6 +644,15 @@ func (fr *Frame) indexAddr(i *ssa.IndexAddr, cond T, st *State) Val {
 		}
 		return &PtrV{Kind: PElem, Base: p.Arr, Idx: &abs, Elem: p.Elem}
 	case *PtrV:
+		// pointer to an array that is itself one element of a slice/array: index inside it
+		if p.Kind == PElem && p.Idx != nil && p.Sub == nil {
+			if at, ok := types.Unalias(p.Elem).Underlying().(*types.Array); ok {
+				fr.boundsOblig(i, cond, And(Le(I(0), idx), Lt(idx, I(at.Len()))), "index")
+				n := *p
+				n.Sub = &idx
+				return &n
+			}
+		}
 		// pointer to local array
 		if p.Kind == PCell && p.Idx == nil {
 			if at, ok := i.X.Type().Underlying().(*types.Pointer).Elem().Underlying().(*types.Array); ok {
